@@ -44,6 +44,8 @@ def run(ck, fb):
     r02n(ck, fb)
     r02o(ck, fb)
     r02p(ck, fb)
+    r02q(ck, fb)
+    r02r(ck, fb)
     ck.borrow('rules.c03', {'R03b': 'R02j', 'R03g': 'R02k', 'R03i': 'R02l'}, 'a truncation that leaves wrong cursors / keeps the suffix breaks the reopened log')
 
 
@@ -486,3 +488,99 @@ def r02p(ck, fb, R='R02p'):
     ck.require(not early, R, 'init:last-record-read-before-compaction-bound', early[0] if early else b.where(),
                'split_off_index already carries the compaction bound when the last record is re-read through read_records: for a fully compacted file '
                'the read is empty and last_term stays pre_term (reopen of entries with terms 1,1,1,2,2 and split_off_index 5 reports term 1)')
+
+
+def r02q(ck, fb, R='R02q'):
+    ck.rule(R, 'what the log accepts it can read back: entries are stored as serde_json of ClientRequest, FileStore::get_log_entries and the start-up '
+               'replay skip a record whose payload does not parse. serde_json writes a non-finite float as null and the derived decoder of a bare '
+               'f32 / f64 field rejects null - so every float field of a type reachable from ClientRequest needs a decoder of its own '
+               '(deserialize_with), otherwise an acknowledged entry (a persistent instance registered with weight=NaN) is never returned again: '
+               'not to followers, not to the replay')
+    CR = 'rnacos::raft::store::ClientRequest'
+    if not ck.require(CR in fb.adts, R, 'anchor:ClientRequest', '-', 'ClientRequest not found'):
+        return
+    seen = set()
+    stack = [CR]
+    while stack:
+        a = stack.pop()
+        if a in seen or a not in fb.adts:
+            continue
+        seen.add(a)
+        for v in fb.adts[a]['variants']:
+            for f in v['fields']:
+                for m in re.findall(r'rnacos::[A-Za-z0-9_:]+', f[1]):
+                    if m in fb.adts and m not in seen:
+                        stack.append(m)
+    ck.floor(R, 'types reachable from ClientRequest', len(seen), 20)
+    floats = [(a, f[0], f[1]) for a in sorted(seen) for v in fb.adts[a]['variants'] for f in v['fields'] if re.fullmatch(r'f(32|64)', f[1])]
+    ck.info(R, 'bare float fields in log payload types: %s' % [(a.split('::')[-1], f) for (a, f, _) in floats])
+    for (a, f, ty) in floats:
+        plain = []
+        for b in fb.bodies.values():
+            if ('Deserialize<\'de> for ' + a + '>') not in b.name:
+                continue
+            for s0 in b.sites:
+                if re.search(r'(next_value|next_element)$', s0.callee or '') and ty in (s0.gargs or []):
+                    plain.append(s0)
+        ck.require(not plain, R, 'float-field-decodes-null:%s.%s' % (a.split('::')[-1], f), plain[0].where() if plain else '-',
+                   '%s.%s is decoded by the derived %s decoder, which rejects the null that serde_json writes for NaN / infinity: POST /nacos/v1/ns/instance '
+                   'with ephemeral=false&weight=NaN is acknowledged and appended; get_log_entries(1,4) returns indexes [1, 3]' % (a.split('::')[-1], f, ty),
+                   'decoded by a field decoder of its own')
+
+
+def r02r(ck, fb, R='R02r'):
+    ck.rule(R, 'a snapshot pointer that lies below the start of the log is never written: RaftLogManager::begin_ready_to_load remembers the pointers of '
+               'the last two local compactions and writes the older one at the next compaction; InstallSnapshotPointerLog replaces the log by an '
+               'installed snapshot in between. Either the install arm forgets the remembered pointers (assigns both fields), or the write of a '
+               'remembered pointer is guarded by a comparison of its index with the first range of the log. Otherwise an entry the install removed '
+               'comes back in front of the log, also after a reopen')
+    LMQ = 'rnacos::raft::filestore::raftlog::RaftLogManager::'
+    b = ck.body(LMQ + 'begin_ready_to_load', R)
+    if not b:
+        return
+    REM = ('last_ready_snapshot_pointer', 'pre_ready_snapshot_pointer')
+    rem = Taint(b, place_src=lambda p: pl_fields(p)[-1:] in ([REM[0]], [REM[1]]), through_calls=True)
+    saves = [s0 for s0 in b.calls(re.escape(LMQ + 'save_new_snapshot_pointer') + '$') if len(s0.args) >= 3 and rem.op_tainted(s0.args[2])]
+    if not ck.require(len(saves) >= 1, R, 'anchor:remembered-pointer-write', b.where(), 'begin_ready_to_load no longer writes a remembered pointer'):
+        return
+    # (a) the install arm forgets
+    h = fb.bodies.get('<rnacos::raft::filestore::raftlog::RaftLogManager as actix::Handler<rnacos::raft::filestore::raftlog::RaftLogManagerRequest>>::handle')
+    forgets = set()
+    if h is not None:
+        for x in util.region(fb, h, 1):
+            for (o, f, bb, st) in x.field_writes():
+                if f in REM:
+                    if x is h and ('rnacos::raft::filestore::raftlog::RaftLogManagerRequest', 'InstallSnapshotPointerLog') not in util.variant_guards(h, bb):
+                        continue
+                    if x is not h and x.name == b.name:
+                        continue
+                    forgets.add(f)
+            for s0 in x.calls(r'Option::<T>::take$'):
+                if util.recv_fields(x, s0)[-1:] and util.recv_fields(x, s0)[-1] in REM and x.name != b.name:
+                    if x is h and ('rnacos::raft::filestore::raftlog::RaftLogManagerRequest', 'InstallSnapshotPointerLog') not in util.variant_guards(h, s0.bb):
+                        continue
+                    forgets.add(util.recv_fields(x, s0)[-1])
+    # (b) the write is guarded by pointer.index against the log start
+    guarded = True
+    for s0 in saves:
+        idx = Taint(b, place_src=lambda p: pl_fields(p)[-1:] == ['index'])
+        log0 = Taint(b, place_src=lambda p: any(f in ('logs', 'start_index', 'split_off_index') for f in pl_fields(p)))
+        ok = False
+        for a in cfg.guard_atoms(b, s0.bb):
+            sw = a[-1]
+            term = b.blocks[sw]['t'] if isinstance(sw, int) and sw < len(b.blocks) else None
+            if term is not None and term.get('k') == 'switch' and idx.op_tainted(term['discr']) and log0.op_tainted(term['discr']):
+                ok = True
+        # an early return on the comparison also protects the site: the comparison switch dominates it and one of its edges cannot reach it
+        if not ok:
+            for i, blk in enumerate(b.blocks):
+                t = blk['t']
+                if t['k'] == 'switch' and idx.op_tainted(t['discr']) and log0.op_tainted(t['discr']) and i != s0.bb:
+                    outs = [tb for (_, tb) in t['targets']] + [t['otherwise']]
+                    if any(s0.bb not in cfg.reach_from(b, [tb]) and tb != s0.bb for tb in outs) and s0.bb in cfg.reach_from(b, [i]):
+                        ok = True
+        guarded = guarded and ok
+    ck.require(len(forgets) == 2 or guarded, R, 'begin_ready_to_load:remembered-pointer-not-below-log', saves[0].where(),
+               'a pointer remembered before a snapshot install is written after it: replicate 1..=60, compact at 50, install snapshot 100, replicate '
+               '101..=160, compact at 150: get_log_entries(0, MAX) starts [50, 100, 101, ...], before and after a reopen',
+               'install forgets the remembered pointers' if len(forgets) == 2 else 'guarded by pointer index vs start of the log')
